@@ -104,10 +104,15 @@ def read_frame(lines):
         elif ln.startswith("├─"):
             if cur is None:
                 raise ParseError("child without context")
+            # the connector belongs on the first line of a *direct* child of the context, and only there
+            if not ln[2:].startswith("─ "):
+                raise ParseError("connector on a line that does not start a direct child: %r" % ln)
             cur.append(ln[2:])
         elif ln.startswith("│ "):
             if cur is None:
                 raise ParseError("continuation without context")
+            if ln[2:].startswith("─ "):
+                raise ParseError("direct child without its connector: %r" % ln)
             cur.append(ln[2:])
         elif ln.startswith("└ "):
             if code:
